@@ -207,10 +207,14 @@ func (lex *Lexer) call(state int, fnext int) {
 }
 
 func (lex *Lexer) ret(n int) {
-	lex.top = lex.top - n
-	if lex.top < 0 {
+	if lex.top < n {
+		// nothing to return to (an unmatched closing brace): stay in the current state
 		lex.top = 0
+		lex.p++
+		return
 	}
+
+	lex.top = lex.top - n
 	lex.cs = lex.stack[lex.top]
 	lex.p++
 }
